@@ -317,7 +317,7 @@ def stale_size(ck, S, rid):
             return False
         seen.add(fid)
         return any(reaches_rotate(n.get("fn"), seen) for n in by_id[fid].calls() if n.get("fn") in by_id)
-    n_uses, bad = 0, None
+    n_uses, bad, unsure = 0, None, None
     for role in ("rotateIfNeeded", "checkDailyRotation", "checkSizeRotation"):
         fn = S.m.get(role)
         if fn is None:
@@ -359,12 +359,22 @@ def stale_size(ck, S, rid):
                     if r_ is None or r_ == us:
                         continue       # the value handed to the very call that may rotate is used before that rotation
                     if g.can_reach(rs, r_) and g.can_reach(r_, us):
-                        bad = bad or (fn, rd, u, rc)
+                        # the holder may be given a fresh value between the rotation and the use (`if (checkDaily()) size = 0;`): whether every rotating
+                        # path passes through that assignment depends on the helper's return value, which this rule does not correlate
+                        reass = [a_ for a_ in fn.all_nodes() if a_.get("k") == "binop" and a_.get("op") == "=" and skip_copies(a_.get("lhs") or {}).get("k") == "ref" and skip_copies(a_["lhs"]).get("decl") in holders]
+                        if any(site(a_) is not None and g.can_reach(r_, site(a_)) and g.can_reach(site(a_), us) for a_ in reass):
+                            unsure = unsure or (fn, rd, u, rc)
+                        else:
+                            bad = bad or (fn, rd, u, rc)
     if bad:
         fn, rd, u, rc = bad
         ck.ob(rid, sitestr(fn, u), False, "%s(): the size read at line %s is still used after %s may have rotated the file: the check sees the size of the file that was just rotated away, rotates the fresh "
               "empty file as well (an empty file is compressed into an invalid archive) or judges the limit by the wrong size" % (strip_tmpl(fn.name).split("::")[-1], rd.get("l"), describe(rc)[:40]),
               key="rotateIfNeeded|stale-size")
+    elif unsure:
+        fn, rd, u, rc = unsure
+        ck.ob(rid, sitestr(fn, u), None, "%s(): the size read at line %s is used after %s may have rotated the file, and is re-assigned on some path in between; whether every rotating path passes the "
+              "re-assignment is not decided by this rule" % (strip_tmpl(fn.name).split("::")[-1], rd.get("l"), describe(rc)[:40]), key="rotateIfNeeded|stale-size")
     else:
         ck.ob(rid, sitestr(S.m["rotateIfNeeded"]), True, "every size of the active file is read after the last rotation that can precede its use (%d uses of held sizes)" % n_uses, key="rotateIfNeeded|stale-size")
 
